@@ -13,8 +13,6 @@ structure JBm (nd : Node) (a : A) (nx : Nat) : Prop where
   bnd : ∀ k ∈ ids a.reqs ++ nd.threads.flatMap tids, k < nx
   np : nd.panic = false
 
-theorem jbm_of_jb (nd : Node) (a : A) (nx : Nat) (h : JB nd a nx) : JBm nd a nx := ⟨h.j, h.bnd, h.np⟩
-
 theorem jbm_mono (nd : Node) (a : A) (nx nx' : Nat) (h : JBm nd a nx) (hle : nx ≤ nx') : JBm nd a nx' :=
   ⟨h.j, fun k hk => Nat.lt_of_lt_of_le (h.bnd k hk) hle, h.np⟩
 
